@@ -330,6 +330,41 @@ def outcomes(thorough, scratch=None):
         b.__cause__ = c
         return a, b
     rz("chain-of-3", "foreign|chained", chain3, how=lambda ab: raise_from(ab[0], ab[1]))
+
+    # cyclic and very deep cause / context chains ("any cause chain"): a report that follows the chain must terminate
+    def cyclic_context():
+        a, b = Boom(plain), KeyError("other")
+        a.__context__ = b
+        b.__context__ = a
+        return a
+
+    def self_context():
+        a = Boom(plain)
+        a.__context__ = a
+        return a
+
+    def cyclic_cause():
+        a, b = Boom(plain), KeyError("other")
+        a.__cause__ = b
+        b.__cause__ = a
+        return a
+
+    def deep_context(n=1500):
+        a = Boom(plain)
+        cur = a
+        for i in range(n):
+            nxt = ValueError("level %d" % i)
+            cur.__context__ = nxt
+            cur = nxt
+        return a
+
+    def raise_keeping_chain(e):
+        # `raise e` outside an except block leaves __context__ / __cause__ as they were set
+        raise e
+    rz("cyclic-context", "foreign|chained", cyclic_context, how=raise_keeping_chain)
+    rz("self-context", "foreign|chained", self_context, how=raise_keeping_chain)
+    rz("cyclic-cause", "foreign|chained", cyclic_cause, how=raise_keeping_chain)
+    rz("context-chain-1500", "foreign|chained", deep_context, how=raise_keeping_chain)
     # where it is raised
     rz("nested-5", "foreign|plain", lambda: Boom(plain), how=lambda e: raise_nested(e, 5))
     rz("generator", "foreign|plain", lambda: Boom(plain), how=raise_in_generator)
